@@ -60,7 +60,7 @@ $(B)/fuzz/%: fuzz/%.cc $(B)/fuzz/libmp.a $(B)/fuzz/libnlw2.a
 	  $(DEFS) $(INCS) $(WARN) -Ishims -MMD -MP -MF $@.d $< -o $@ $(B)/fuzz/libmp.a $(B)/fuzz/libnlw2.a -ldl
 
 LIBS_safeint_check := -lrapidcheck
-LIBS_gsl_shim := -lgsl -lgslcblas -lm
+LIBS_gsl_shim := -Ishims/asl_stub -lrapidcheck -lgsl -lgslcblas -lm
 
 # vdriver: three TUs (the converter instantiation dominates), clang -O0 ASan+UBSan: ~95 s instead of 5.5 min
 VD_OBJS := $(B)/vd/shimobj/vdriver.o $(B)/vd/shimobj/vd_connect.o $(B)/vd/shimobj/vd_mm.o
